@@ -341,8 +341,7 @@ def families(ctx):
 
 
 def run(ctx):
-    for name, fn in families(ctx):
-        ctx.guarded(name, fn)
+    ctx.run_families(families(ctx))
     ctx.guarded('native battery', lambda: battery_selftest(ctx))
     ctx.bounds += ['validate_policy_with_level: two request environments, each Success | Irrelevant | Fail', 'one node of each kind with arbitrary child levels (<= 1000) and an arbitrary maximum (<= 1000); containers with two members; structural induction gives expressions of any depth']
     ctx.assumptions += ['recursive calls on children return arbitrary levels (logged); Expr::data (the typechecker annotation) is entity / record / other; the RFC-76 induction from the per-node calculus to '
